@@ -58,7 +58,27 @@ func runC33(c *an.Ctx) {
 	c.Check(n == 1 && w == "", "guard|VerifyHeader|two-thirds", "a header is accepted only if the listed bookkeepers number at least two thirds of the consensus peer set", c.P.Rel(fn.Pos()), fmt.Sprintf("%d threshold comparisons; %s", n, w))
 	// the counted list and peer set
 	okSubj := false
-	for _, v := range an.FindValues(fn, thr.MatchValue) {
+	findAll := func(match func(ssa.Value) bool) []ssa.Value {
+		var out []ssa.Value
+		for _, g := range an.InlineReach(fn) {
+			out = append(out, an.FindValues(g, match)...)
+		}
+		return out
+	}
+	derefField := func(v ssa.Value, name string) bool {
+		ds := an.Deref(fn, v)
+		if len(ds) == 0 {
+			return false
+		}
+		for _, d := range ds {
+			if f := fieldOfLoad(d); f == nil || f.Name() != name {
+				return false
+			}
+		}
+		return true
+	}
+	hdr := fn.Params[1].Name()
+	for _, v := range findAll(thr.MatchValue) {
 		b := v.(*ssa.BinOp)
 		lenOf := func(x ssa.Value) string {
 			m, ok := x.(*ssa.BinOp)
@@ -69,9 +89,9 @@ func runC33(c *an.Ctx) {
 			if !isC || len(k.Call.Args) != 1 {
 				return ""
 			}
-			return an.AccessPath(k.Call.Args[0])
+			return an.AccessPathIn(fn, k.Call.Args[0])
 		}
-		if lenOf(b.X) == "header.Bookkeepers" && fieldOfLoad(b.Y.(*ssa.BinOp).X.(*ssa.Call).Call.Args[0]) != nil && fieldOfLoad(b.Y.(*ssa.BinOp).X.(*ssa.Call).Call.Args[0]).Name() == "PeerMap" {
+		if pk, isC := b.Y.(*ssa.BinOp).X.(*ssa.Call); isC && len(pk.Call.Args) == 1 && lenOf(b.X) == hdr+".Bookkeepers" && derefField(pk.Call.Args[0], "PeerMap") {
 			okSubj = true
 		}
 	}
@@ -87,7 +107,7 @@ func runC33(c *an.Ctx) {
 		if !isL || !l.CommaOk {
 			return false
 		}
-		if f := fieldOfLoad(l.X); f == nil || f.Name() != "PeerMap" {
+		if !derefField(l.X, "PeerMap") {
 			return false
 		}
 		peerMap = l.X
@@ -111,14 +131,14 @@ func runC33(c *an.Ctx) {
 		call, isC := l.Index.(*ssa.Call)
 		return isC && call.Call.StaticCallee() != nil && call.Call.StaticCallee().Name() == "PubkeyID"
 	}}
-	if len(an.FindValues(fn, seen.MatchValue)) == 0 {
+	if len(findAll(seen.MatchValue)) == 0 {
 		c.Violate("distinct|VerifyHeader|no-repeated-bookkeeper", "listing the same peer several times does not count extra: a repeated key aborts verification (or the threshold counts a set keyed by key id)", c.P.Rel(fn.Pos()),
 			"no set keyed by vconfig.PubkeyID(bookkeeper) is consulted: len(header.Bookkeepers) counts repeats and VerifyMultiSignature marks keys by list position")
 	} else {
 		noIterationCompletesWhenFailing(c, "distinct|VerifyHeader|no-repeated-bookkeeper", "listing the same peer several times does not count extra: no iteration completes for a key that was already seen", fn, []*an.Guard{seen}, nil)
 		// the set is updated with the same key in every continuing iteration
 		okIns := false
-		for _, v := range an.FindValues(fn, seen.MatchValue) {
+		for _, v := range findAll(seen.MatchValue) {
 			l := v.(*ssa.Lookup)
 			for _, ref := range *l.X.Referrers() {
 				if mu, isMu := ref.(*ssa.MapUpdate); isMu && mu.Key == l.Index {
